@@ -23,6 +23,10 @@ TOKENS = ["a", "B", ".", "-", "+", "(", "ż", "1", "?", "*", "**", "/", "[ab]", 
 EXTRA_TOKENS = ["$", "^", "\\$", "|", ",", ")", "}", "{", "]", "[", "[a-c]", "[!a-b1]", "[.-]", "[a\\]", "[^a]", "[]",
                 "[b-a]", "!(a)", "{a,{b,c}}", "@(a|?(b))", "{a", "?(", "\\", "\\\\", "#", "&", "~", " ", "\n", "Ż", "b",
                 "*(a/b)", "{,a}", "+()", "[ż]", "[!ż]", "[A-Z]", "é", "\\a", "\\/", "@(*|b)", "{**,a}"]
+# groups whose alternatives contain the OTHER group kind's delimiters as literals: `( | )` are ordinary characters
+# inside {..}, `{ , }` are ordinary inside @() ?() +() *() (p_any_char's none_of set depends on the enclosing scope)
+XTOKENS = ["{a(,b}", "{a|b,c}", "{x(1),y}", "{a),b}", "@(a,b|c)", "?(a{)", "+(a}|b)", "*(a,|b)", "{a,@(b|c)}", "@(a|{b,c})"]
+XCONTEXT = ["a", "/", "*", ".", "B", "**"]
 NAMES = ["a", "B", "b", "a.1", "a-1", "ż", "(", "ab"]
 EXTRA_NAMES = ["a\nb", "\n", "*", "Ż", "a+", "1", ".", "-", "+", "c", "A", "$", "a$"]
 BASE = "/d-1/x.y/ż"
@@ -50,7 +54,12 @@ def all_paths(maxc):
 EXPAND = {"?": ["a", "B", "ż", "/", "\n"], "*": ["", "a", "ab", "a.1", "a/b", "B\n"], "**": ["", "a", "a/b", "a/b/ab", "\n/a"],
           "[ab]": ["a", "b", "B", "c"], "[!a]": ["b", "a", "A", "/", "ż"], "{a,b/c}": ["a", "b/c", "b", "A", "B/c"],
           "@(a|b)": ["a", "b", "ab", "B"], "?(a)": ["", "a", "aa", "A"], "+(a)": ["", "a", "aa", "aA"],
-          "*(a|b)": ["", "a", "ba", "abB", "c"], "\\*": ["*", "a"], "/": ["/", "/", "a"]}
+          "*(a|b)": ["", "a", "ba", "abB", "c"], "\\*": ["*", "a"], "/": ["/", "/", "a"],
+          "{a(,b}": ["a(", "b", "{a(,b}", "a", "A("], "{a|b,c}": ["a|b", "c", "{a|b,c}", "a", "b"],
+          "{x(1),y}": ["x(1)", "y", "{x(1),y}", "x", "X(1)"], "{a),b}": ["a)", "b", "{a),b}", "a"],
+          "@(a,b|c)": ["a,b", "c", "@(a,b|c)", "a", "b", "C"], "?(a{)": ["", "a{", "?(a{)", "a", "a{a{"],
+          "+(a}|b)": ["a}", "b", "a}ba}", "+(a}|b)", "", "B"], "*(a,|b)": ["", "a,", "ba,b", "*(a,|b)", "a"],
+          "{a,@(b|c)}": ["a", "b", "c", "{a,@(b|c)}", "bc"], "@(a|{b,c})": ["a", "b", "c", "@(a|{b,c})", "b,c"]}
 
 
 def guided_path(rng, toks):
@@ -80,7 +89,18 @@ TOKEN_AST = {"?": ("one",), "*": ("star",), "**": ("dstar",), "/": ("sep",), "[a
              "[!a]": ("class", True, "a"), "{a,b/c}": ("alt", "once", [[("lit", "a")], [("lit", "b"), ("sep",), ("lit", "c")]]),
              "@(a|b)": ("alt", "once", [[("lit", "a")], [("lit", "b")]]), "?(a)": ("alt", "opt", [[("lit", "a")]]),
              "+(a)": ("alt", "plus", [[("lit", "a")]]), "*(a|b)": ("alt", "many", [[("lit", "a")], [("lit", "b")]]),
-             "\\*": ("lit", "*")}
+             "\\*": ("lit", "*"),
+             "{a(,b}": ("alt", "once", [[("lit", "a"), ("lit", "(")], [("lit", "b")]]),
+             "{a|b,c}": ("alt", "once", [[("lit", "a"), ("lit", "|"), ("lit", "b")], [("lit", "c")]]),
+             "{x(1),y}": ("alt", "once", [[("lit", "x"), ("lit", "("), ("lit", "1"), ("lit", ")")], [("lit", "y")]]),
+             "{a),b}": ("alt", "once", [[("lit", "a"), ("lit", ")")], [("lit", "b")]]),
+             "@(a,b|c)": ("alt", "once", [[("lit", "a"), ("lit", ","), ("lit", "b")], [("lit", "c")]]),
+             "?(a{)": ("alt", "opt", [[("lit", "a"), ("lit", "{")]]),
+             "+(a}|b)": ("alt", "plus", [[("lit", "a"), ("lit", "}")], [("lit", "b")]]),
+             "*(a,|b)": ("alt", "many", [[("lit", "a"), ("lit", ",")], [("lit", "b")]]),
+             "{a,@(b|c)}": ("alt", "once", [[("lit", "a")], [("alt", "once", [[("lit", "b")], [("lit", "c")]])]]),
+             "@(a|{b,c})": ("alt", "once", [[("lit", "a")], [("alt", "once", [[("lit", "b")], [("lit", "c")]])]])}
+REF_TOKENS = set(TOKENS) | set(XTOKENS)
 
 
 def ref_ast(toks):
@@ -309,11 +329,25 @@ def gen_cases(ctx):
             toks = [rng.choice(TOKENS) for _ in range(5)]
             add(toks, sample_paths(toks, 3, 5), half=True)
         ctx.bump("glob_tokens", 5, n5 * 2)
+    # cross-delimiter groups: every sequence of <= 3 tokens over XTOKENS + a small context that contains an XTOKEN
+    xa = XTOKENS + XCONTEXT
+    xseqs = [[a] for a in XTOKENS] + [[a, b] for a in xa for b in xa if a in XTOKENS or b in XTOKENS]
+    if ctx.quick:
+        xseqs += [[a, b, c] for a in xa for b in xa for c in xa
+                  if sum(t in XTOKENS for t in (a, b, c)) >= 1 and rng.chance(1, 3)]
+    else:
+        xseqs += [[a, b, c] for a in xa for b in xa for c in xa if a in XTOKENS or b in XTOKENS or c in XTOKENS]
+    for toks in xseqs:
+        ps = [guided_path(rng, toks) for _ in range(8)]
+        # the whole glob text as a subject: it must NOT match unless the documented semantics says so
+        ps += ["".join(toks), rng.choice(paths_all)]
+        add(toks, ps)
+        ctx.bump("glob_tokens", "cross_delimiter_%d" % len(toks), 4)
     # random globs over the wider alphabet (incl. syntax outside the theorem fragment), 1-7 tokens
     nr = ctx.pick(6000, 80000)
     for _ in range(nr):
         n = 1 + rng.below(7)
-        toks = [rng.choice(EXTRA_TOKENS) if rng.chance(2, 5) else rng.choice(TOKENS) for _ in range(n)]
+        toks = [rng.choice(EXTRA_TOKENS + XTOKENS) if rng.chance(2, 5) else rng.choice(TOKENS) for _ in range(n)]
         ps = sample_paths(toks, 3, 6) + ["/".join(rng.choice(NAMES + EXTRA_NAMES) for _ in range(1 + rng.below(3))) for _ in range(3)]
         add(toks, ps)
         ctx.bump("glob_tokens", "random_%d" % min(n, 7), 4)
@@ -405,7 +439,9 @@ def run(ctx):
                 "(relative and absolute) + names with newlines; all 3-token globs and (quick: a 9000 sample containing every adjacent "
                 "token pair at every position; thorough: all) 4-token globs (+100k 5-token globs thorough) x sampled fixed paths and "
                 "paths derived from the glob so that many match; random globs of 1-7 tokens over a wider alphabet incl. $ ^ | , } ] "
-                "class syntax outside the fragment; every glob with and without --ignore-case, directly (Pattern) and through "
+                "class syntax outside the fragment; a dedicated family of groups whose alternatives contain the other group kind's delimiters "
+                "as literals ({a(,b} {a|b,c} {x(1),y} @(a,b|c) ?(a{) +(a}|b) ...) in sequences of <= 3 tokens with subjects incl. the "
+                "glob text itself; every glob with and without --ignore-case, directly (Pattern) and through "
                 "PathSelector include/exclude/name with base dir /d-1/x.y/ż and relative + absolute paths. One evaluation = one "
                 "(glob, ci, mode, path); non-trivial = full match true, or some ancestor rejected by the partial match, or an "
                 "err/panic outcome; distinct = distinct (mode, ci, glob, path)")
@@ -499,7 +535,7 @@ def run(ctx):
 
     # --- 1b. independent reference matcher on the Pattern-level cases over the fixed token set ------
     from multiprocessing import Pool
-    dcases = [(c, il) for c, il in zip(cases, impl) if c.toks and il.startswith("ok ") and all(t in TOKENS for t in c.toks)]
+    dcases = [(c, il) for c, il in zip(cases, impl) if c.toks and il.startswith("ok ") and all(t in REF_TOKENS for t in c.toks)]
     with Pool(core.NCPU) as pool:
         refs = pool.map(_ref_job, [(c.mode, c.toks, bool(c.ci), c.paths) for c, _ in dcases], chunksize=64)
     sem_fails, nref = [], 0
